@@ -160,6 +160,9 @@ type S struct {
 	Dst     *E
 	Line    int
 	Global  bool
+	// TopLevel: a statement of an Eval-style program outside any function: its declarations are
+	// package-level variables (printed in their ordinary form)
+	TopLevel bool
 }
 
 type Case struct {
@@ -476,6 +479,8 @@ func (p *printer) stmt(s *S) {
 	p.indent()
 	s.Line = p.line
 	switch s.K {
+	case "yield":
+		p.w(p.expr(s.E))
 	case "decl", "declzero", "assign", "opassign", "incdec", "expr":
 		p.w(p.simple(s))
 		if p.goMode && !s.Global && (s.K == "decl" || s.K == "declzero") {
@@ -1054,13 +1059,13 @@ func (f *flat) stmt(s *S) int {
 	switch s.K {
 	case "decl":
 		k := "decl"
-		if s.Global {
+		if s.Global || s.TopLevel {
 			k = "gdecl"
 		}
 		return f.add(map[string]any{"k": k, "names": s.Names, "exprs": f.exprs(s.Exprs), "line": s.Line})
 	case "declzero":
 		k := "declzero"
-		if s.Global {
+		if s.Global || s.TopLevel {
 			k = "gdeclzero"
 		}
 		return f.add(map[string]any{"k": k, "name": s.Names[0], "zero": f.add(s.DeclTy.zeroNode())})
@@ -1072,6 +1077,8 @@ func (f *flat) stmt(s *S) int {
 		return f.add(map[string]any{"k": "incdec", "lhs": f.lvalue(s.Lhs[0]), "d": s.D, "line": s.Line})
 	case "expr":
 		return f.add(map[string]any{"k": "expr", "e": f.expr(s.E), "nres": s.NRes})
+	case "yield":
+		return f.add(map[string]any{"k": "yield", "e": f.expr(s.E)})
 	case "print":
 		return f.add(map[string]any{"k": "print", "args": f.exprs(s.Exprs), "ln": s.Ln})
 	case "block":
@@ -1144,6 +1151,9 @@ func (prog *Prog) Flatten() map[string]any {
 	}
 	if globals == nil {
 		globals = []int{}
+	}
+	if f.nodes == nil {
+		f.nodes = append(f.nodes, map[string]any{"k": "nop"}) // JSON null is not a TLA+ value
 	}
 	return map[string]any{"id": prog.ID, "nodes": f.nodes, "funcs": funcs, "globals": globals, "inits": inits, "main": prog.Main}
 }
